@@ -141,13 +141,17 @@ func zzLifeSetup(c *Controller) error {
 			return nil
 		}
 	}
-	c.OnFirstStartup(cb("firststartup", false))
-	c.OnStartup(cb("startup", fault == "startup"))
-	c.OnRestart(cb("restart", fault == "onrestart"))
-	c.OnRestartFailed(cb("restartfailed", false))
-	c.OnShutdown(cb("shutdown", fault == "onshutdown"))
-	c.OnFinalShutdown(cb("finalshutdown", false))
-	return nil
+	// like the `on` directive: callbacks of a server block are registered once, however many keys
+	// (site addresses) the block has
+	return c.OncePerServerBlock(func() error {
+		c.OnFirstStartup(cb("firststartup", false))
+		c.OnStartup(cb("startup", fault == "startup"))
+		c.OnRestart(cb("restart", fault == "onrestart"))
+		c.OnRestartFailed(cb("restartfailed", false))
+		c.OnShutdown(cb("shutdown", fault == "onshutdown"))
+		c.OnFinalShutdown(cb("finalshutdown", false))
+		return nil
+	})
 }
 
 func zzLifeRegister() {
@@ -162,8 +166,15 @@ func zzLifeRegister() {
 	RegisterPlugin("life", Plugin{ServerType: "zzlife", Action: zzLifeSetup})
 }
 
+// zzTwoKeys: the server block is written with two site addresses.
+var zzTwoKeys bool
+
 func zzInput(tag, fault string) Input {
-	body := "site\nlife " + tag + " " + fault + "\n"
+	keys := "site"
+	if zzTwoKeys {
+		keys = "site, site2"
+	}
+	body := keys + "\nlife " + tag + " " + fault + "\n"
 	if fault == "parse" {
 		body = "site {\nlife " + tag + "\n"
 	}
@@ -209,6 +220,7 @@ func VerifH16Lifecycle() {
 	shutdownCallbacksOnce = sync.Once{}
 	Quiet = true // no file-descriptor-limit notice (a getrlimit system call)
 
+	zzTwoKeys = verifrt.Bool("two-keys-on-the-block")
 	firstFault := []string{"", "onrestart", "onshutdown"}[verifrt.Choose("first-instance-callback-fault", 3)]
 	cur, err := Start(zzInput("A", firstFault))
 	if err != nil {
@@ -342,6 +354,7 @@ func VerifH16bShutdownPassWithStop() {
 	instances = nil
 	shutdownCallbacksOnce = sync.Once{}
 	Quiet = true
+	zzTwoKeys = false
 	tags := []string{"A", "B", "C"}
 	var insts []*Instance
 	for _, t := range tags {
